@@ -410,7 +410,7 @@ def rename_keys(sysd, ren):
 
 
 @st.composite
-def rate_cases(draw, cls=None, cstr=False, max_subs=8, max_rxns=8):
+def rate_cases(draw, cls=None, cstr=False, max_subs=8, max_rxns=8, subs_kinds=None):
     """Case of C03: a system, a concentration vector (plus an alternative one), a permutation of the reactions and
     optionally stirred-tank feed terms."""
     if cls is None:
@@ -442,7 +442,7 @@ def rate_cases(draw, cls=None, cstr=False, max_subs=8, max_rxns=8):
     # how the substances are handed to ReactionSystem: key strings (default), Substance objects, or Species objects
     # that carry a phase (phase_idx 0-3, given directly or through the key's suffix '(s)' '(l)' '(g)').  The phase has
     # no place in the reference semantics.
-    skind = pick(draw, SUBS_KINDS)
+    skind = pick(draw, subs_kinds or SUBS_KINDS)
     if skind != "keys":
         case["subs_kind"] = skind
     if skind in ("species", "species_formula"):
@@ -473,6 +473,63 @@ def rate_cases(draw, cls=None, cstr=False, max_subs=8, max_rxns=8):
             fr = draw(conc_values(cls, "F"))
             fc = {k: draw(conc_values(cls, k)) for k in sorted(fkeys)}
         case["cstr"] = {"fr": fr, "fc": fc}
+    # the optional `variables` argument of the array form (law_of_mass_action_rates): omitted, {}, unrelated keys only,
+    # or a whole state dict that also holds substance keys (with other values than the concentration vector)
+    case["vmode"] = pick(draw, VMODES)
+    return case
+
+
+VMODES = ["empty", "state", "none", "unrelated", "state"]
+
+
+@st.composite
+def history_cases(draw):
+    """One ReactionSystem object that is evaluated, changed in place and evaluated again:
+    steps = [eval, (change+, eval)+]; change = sort_substances_inplace() | sort_substances_inplace(key=<an order>) |
+    rsys += [reactions over the present substances] | rsys += ReactionSystem(reactions, present + new substances).
+    `conc` / `alt` give a value for every key that ever exists; evaluations use them alternately."""
+    case = draw(rate_cases(max_subs=6, max_rxns=5, subs_kinds=["keys", "keys", "species", "substance"]))
+    cls = case["cls"]
+    scalar_cls = "float" if cls == "ndarray" else cls
+    m = case.get("m")
+    subs = list(case["sys"]["subs"])
+    all_rxns = list(case["sys"]["rxns"])
+    spare = [k for k in KEYS if k not in subs]
+    steps = [{"op": "eval"}]
+    for _ in range(draw(ints(1, 3))):
+        for _ in range(1 if draw(ints(0, 3)) else 2):
+            op = pick(draw, ["sort", "reorder", "add_system", "sort", "add_rxns"])
+            if op == "sort":
+                steps.append({"op": "sort"})
+                subs = sorted(subs)
+            elif op == "reorder":
+                subs = permutation(draw, subs)
+                steps.append({"op": "reorder", "order": list(subs)})
+            else:
+                if op == "add_system":
+                    new = [spare.pop(0) for _ in range(min(len(spare), draw(ints(1, 2))))]
+                    osubs = permutation(draw, pick_distinct(draw, subs, 0, 2) + new)
+                else:
+                    osubs = subs
+                rx = draw(reactions_over(osubs, max_n=2, cls=scalar_cls, start_index=len(all_rxns)))
+                all_rxns.extend(rx)
+                dedupe_params(all_rxns)          # only ever changes the reactions added last
+                if op == "add_system":
+                    steps.append({"op": "add_system", "subs": osubs, "rxns": rx})
+                    subs = subs + [k for k in osubs if k not in subs]
+                else:
+                    steps.append({"op": "add_rxns", "rxns": rx})
+        steps.append({"op": "eval"})
+    for k in sorted(set(subs) - set(case["conc"])):
+        if m:
+            case["conc"][k], case["alt"][k] = draw(arr_values(m, "c")), draw(arr_values(m, "c"))
+        elif cls == "sym":
+            case["conc"][k], case["alt"][k] = {"sym": "c_" + k}, {"sym": "d_" + k}
+        else:
+            case["conc"][k], case["alt"][k] = draw(conc_values(cls, k)), draw(conc_values(cls, k))
+        if "phase" in case:
+            case["phase"][k] = pick(draw, [0, 1, 3, 2])
+    case["steps"] = steps
     return case
 
 
@@ -591,13 +648,18 @@ def k_name(i):
     return "kname%d" % i
 
 
-def build_reaction(r, idx=0):
+def build_reaction(r, idx=0, named_fk=False):
+    """named_fk: a named constant becomes MassAction.fk(name) (what Reaction.rate_expr() makes of a string), the form
+    in which the array API can look the name up in its `variables` argument."""
     from chempy import Reaction, Equilibrium
     parts = dict(inact_reac=dict(r["inact_reac"]) or None, inact_prod=dict(r["inact_prod"]) or None)
     if r.get("eq"):
         return Equilibrium(dict(r["reac"]), dict(r["prod"]), (native(r["k"][0]), native(r["k"][1])), **parts)
     kt = r.get("ktype", "plain")
-    if kt == "named":
+    if kt == "named" and named_fk:
+        from chempy.kinetics.rates import MassAction
+        param = MassAction.fk(k_name(idx))
+    elif kt == "named":
         param = k_name(idx)
     elif kt == "massaction":
         from chempy.kinetics.rates import MassAction
